@@ -45,7 +45,7 @@ TRANSPORTS = ("default", "threaded", "mp")
 def mk(N, kinds, transports=TRANSPORTS, chunks=SC.CHUNKSIZES, excs=(0, 1, 2)):
     def setup(e):
         spec = SC.gen_graph(e, N, kinds, sym_leaf=False)
-        want, shape = SC.gen_request(e, N)
+        want, shape = SC.gen_request(e, N, allow_empty=False, shapes=(0, 1, 2))
         fails = {}
         for j in range(N):
             if spec[j]["kind"] not in ("data", "alias") and e.flag(f"fail{j}"):
